@@ -142,7 +142,8 @@ def check(line, info, stats):
             # UP: an instruction blocked on a child completes with what the child signalled or returned
             if pv["t"] in ("snd", "ret") and "coerced" not in e["v"]:
                 stats["up_values"] = stats.get("up_values", 0) + 1
-                if pv["t"] == "snd" and pv["sig"] == 4 and e["v"].startswith('"expected_string'):
+                if pv["t"] == "snd" and pv["sig"] in (4, -1) and e["v"].startswith('"expected_string'):
+                    # (sig -1 = sent by `propagate`: the signal is the status of its fiber operand, here user0)
                     # a user0 signal whose payload is not a [tag value] tuple, caught by a `prompt`, whose destructuring
                     # then raises: the error is what travels on
                     stats["up_values_prompt_destructure"] = stats.get("up_values_prompt_destructure", 0) + 1
